@@ -29,3 +29,9 @@ def collect(P):
            r"fn seek_danger\(&mut self, target: DocId\) -> SeekDangerResult \{\s*if target >= TERMINATED \{\s*return SeekDangerResult::SeekLowerBound\(TERMINATED\);\s*\}"
            r"(?:\s*//[^\n]*)*\s*if target <= self\.doc \{\s*return if target == self\.doc \{\s*SeekDangerResult::Found\s*\} else \{\s*SeekDangerResult::SeekLowerBound\(self\.doc\)\s*\};\s*\}"
            r"\s*if self\.is_in_horizon\(target\)")
+    # hit branch of seek_danger: are the children that missed re-synchronised on their own document when they sit at
+    # or after the target (`if doc >= target { docset.seek(doc); }` over `self.docsets[..num_missed]`) before
+    # `self.seek(target)`?  1 = yes (shape after the fix of F134), 0 = no
+    P.flag("UNION_DANGER_RESYNCS_MISSED", rel,
+           r"if is_hit \{(?:\s*//[^\n]*)*\s*for docset in &mut self\.docsets\[\.\.num_missed\] \{\s*let doc = docset\.doc\(\);\s*"
+           r"if doc >= target \{\s*docset\.seek\(doc\);\s*\}\s*\}(?:\s*//[^\n]*)*\s*self\.seek\(target\);\s*SeekDangerResult::Found")
